@@ -6,3 +6,8 @@ import DnsVerif.Props.C13
 #print axioms DnsVerif.Props.C13.serve_v2_can_panic_on_malformed_store
 #print axioms DnsVerif.Props.C13.serve_v2_can_panic_on_overlong_label
 #print axioms DnsVerif.Props.C13.reply_shape
+#print axioms DnsVerif.Props.C13.v2KeysOk_of_V2Canonical
+#print axioms DnsVerif.Props.C13.v2Canonical_of_canonical
+#print axioms DnsVerif.Props.C13.serve_v2_never_panics
+#print axioms DnsVerif.Props.C13.serve_v2_reply_or_none
+#print axioms DnsVerif.Props.C13.serve_v2_outcome_is_v1
